@@ -34,7 +34,7 @@ MANIFEST = {
             'Model/ItemOps.lean (checked against the code and against NumPy by the correspondence run); harness abstraction. '
             'Nine defects repaired (DESIGN 2.7 #19, #25, #26 and six found here; all merged); one recorded '
             '(KF-C15-conv-leading: as_matrix/as_pair/as_vector3 re-read the raw array; proved as counterexamples on the model). '
-            'as_diagonal, swap_items, the derivative union of stack and multi-axis move inverses are tied but have no '
+            'as_diagonal, the derivative union of stack and multi-axis move inverses are tied but have no '
             'theorem (DESIGN.d/C15.md §6).',
 }
 RULE = ('operand provenance: fresh C-contiguous arrays, np.asfortranarray copies, transposed views of C bases, '
